@@ -23,10 +23,12 @@ Core Lean only.  What mirrors what:
 * `getAlleles`         `get_alleles()` incl. the `EQUAL_SCORES` tie flag (allele 3).
 * `witness`            backtrace (index path and transmission path), `get_optimal_partitioning`.
 
-Not modelled: the √n checkpointing of projection columns (a memory optimisation of a pure function, covered by
-correspondence only), 32-bit `unsigned int` overflow, the Gray-code *order* of the enumeration where it only
-influences which of several equally good witnesses is returned (the Gray code itself is modelled in
-`Model/C01Gray.lean`).
+Modelled in separate files: `compute_table` as coded — the √n check-pointing of projection columns, the stored
+backtrace tables, the backtrace that recomputes the segment between two check-points, the Gray-code *order* of the
+enumeration (which decides which of several equally good witnesses is returned), `get_optimal_partitioning`,
+`get_super_reads` — in `Model/C01Ckpt.lean` (refinement theorems: `Props/C01.lean`, `ckpt_*`); the 32-bit
+`unsigned int` arithmetic with `UINT_MAX` as infinity in `Model/C01U32.lean` (`no_overflow`).  The definitions below
+are the unbounded, full-table, index-order reference those refine.
 -/
 namespace WhVerif.C01
 open WhVerif.Cost
